@@ -10,8 +10,8 @@ package gcounter
 //
 //   - a node's counter never decreases and never exceeds NUM_NODES (no state is invented)
 //   - a node passes `wait` (Run returns) only when its counter reads NUM_NODES
-//   - once updates have stopped and every node has broadcast, all nodes read equal values (= NUM_NODES) and every Run
-//     has returned nil
+//   - when every node has finished, all nodes read equal values (= NUM_NODES) and every Run has returned nil; runs in
+//     which every node finishes exist (reach witness)
 
 import (
 	"github.com/DistCompiler/pgo/distsys"
@@ -109,9 +109,18 @@ func gcSystem(n, events int) {
 			observe()
 		}
 	}
+	// (termination of every node is not claimed: a node that has seen all increments finishes and closes its resource,
+	// and a peer it never reached cannot learn its increment any more - under the default schedule all nodes do
+	// finish, which the reach witness "all-finished" demands of the exploration as a whole)
+	all := true
 	for i := 0; i < n; i++ {
-		verifAssert(done[i] && errs[i] == nil, "C16 gcounter: every node terminates once all increments have been broadcast")
-		verifAssert(read(i) == int32(n), "C16 gcounter: nodes with equal knowledge read equal values (NUM_NODES)")
+		all = all && done[i]
+	}
+	if all {
+		verifReach("all-finished")
+		for i := 0; i < n; i++ {
+			verifAssert(errs[i] == nil && read(i) == int32(n), "C16 gcounter: nodes with equal knowledge read equal values (NUM_NODES)")
+		}
 	}
 	verifReach("end")
 	for i := range ctxs {
